@@ -131,3 +131,33 @@ def independence(table):
             stat += (o - e) ** 2 / e
     df = (len(rows) - 1) * (len(rows[0]) - 1)
     return stat, df, chi2_logsf(stat, df)
+
+
+def binom_log_tails(k, n, p):
+    """(log P(X <= k), log P(X >= k)) for X ~ Binomial(n, p), summed exactly in log space (for small n*p, where the
+    chi-square approximation is useless)"""
+    if p <= 0.0:
+        return (0.0, 0.0 if k == 0 else -math.inf)
+    if p >= 1.0:
+        return (0.0 if k >= n else -math.inf, 0.0)
+    lp, lq = math.log(p), math.log1p(-p)
+
+    def logpmf(i):
+        return math.lgamma(n + 1) - math.lgamma(i + 1) - math.lgamma(n - i + 1) + i * lp + (n - i) * lq
+
+    def logsum(terms):
+        m = max(terms)
+        return m + math.log(sum(math.exp(t - m) for t in terms))
+
+    mode = int((n + 1) * p)
+    lo_terms = [logpmf(i) for i in range(max(0, min(k, mode) - 4000), k + 1)] if k >= 0 else [-math.inf]
+    # upper tail: from k upwards until the terms are negligible against the largest
+    hi_terms, i, best = [], k, -math.inf
+    while i <= n:
+        t = logpmf(i)
+        hi_terms.append(t)
+        best = max(best, t)
+        if i > mode and t < best - 60:
+            break
+        i += 1
+    return (min(0.0, logsum(lo_terms)), min(0.0, logsum(hi_terms)) if hi_terms else -math.inf)
